@@ -5,6 +5,9 @@ Open Scope N_scope.
 
 Definition MAXDIM : N := 65520.
 
+(* a row of the scrollback: well-paired, of some legal width (it may predate a resize) *)
+Definition sbrow_ok (r : row) : Prop := cells_ok (cells r) /\ 1 <= len (cells r) /\ len (cells r) <= MAXDIM.
+
 (* everything except the cursor position *)
 Record grid_okc (x : grid) : Prop := mkGridOkc {
   gk_rows : 1 <= grows x /\ grows x <= MAXDIM;
@@ -16,7 +19,8 @@ Record grid_okc (x : grid) : Prop := mkGridOkc {
   gk_bot : bot x < grows x;
   gk_region : top x < bot x \/ (top x = 0 /\ bot x = grows x - 1);
   gk_sboff : sb_off x <= len (sb x);
-  gk_sbcap : len (sb x) <= sb_cap x }.
+  gk_sbcap : len (sb x) <= sb_cap x;
+  gk_sbrows : Forall sbrow_ok (sb x) }.
 
 Definition grid_ok (x : grid) : Prop := grid_okc x /\ prow x < grows x /\ pcol x <= gcols x.
 
@@ -488,8 +492,8 @@ Qed.
 Lemma len_trim_front {A} (l : list A) cap : len (trim_front l cap) = N.min (len l) cap.
 Proof. unfold trim_front. rewrite len_skipnN. lia. Qed.
 
-Lemma okc_with_sb x s off : grid_okc x -> off <= len s -> len s <= sb_cap x -> grid_okc (with_sb x s off).
-Proof. intros [] H1 H2. split; cbn; auto. Qed.
+Lemma okc_with_sb x s off : grid_okc x -> off <= len s -> len s <= sb_cap x -> Forall sbrow_ok s -> grid_okc (with_sb x s off).
+Proof. intros [] H1 H2 H3. split; cbn; auto. Qed.
 
 Lemma scroll_up_post x n : grid_ok x -> post x (scroll_up x n).
 Proof.
@@ -501,7 +505,7 @@ Proof.
                     exists z, step y = Ok z /\ (grid_ok z /\ frame x z /\ top z = top x /\ bot z = bot x)) as Hstep.
   { intros y (Oy & Fy & Ty & By). unfold step.
     destruct Oy as (Ky & Hry & Hcy). destruct Fy as [Fr Fc Fcap Fsb0].
-    destruct (rotate2_ok (grows y) (gcols y) (live y) (top y) (bot y + 1)) as (l1 & r0 & l2 & E1 & E2 & Hl2 & _).
+    destruct (rotate2_ok (grows y) (gcols y) (live y) (top y) (bot y + 1)) as (l1 & r0 & l2 & E1 & E2 & Hl2 & [_ Hr0]).
     - split; [apply (gk_live _ Ky)|apply (gk_rowsok _ Ky)].
     - rewrite Ty, Fr. lia.
     - rewrite By, Fr. lia.
@@ -514,7 +518,10 @@ Proof.
         assert (len s <= sb_cap y) as Ls by (unfold s; rewrite len_trim_front; lia).
         split; [|split; [|split; [exact Ty|exact By]]].
         * split; [apply okc_with_sb; auto|cbn; auto].
-          cbn. destruct (N.ltb_spec 0 (sb_off y)); lia.
+          -- cbn. destruct (N.ltb_spec 0 (sb_off y)); lia.
+          -- unfold s, trim_front. apply Forall_skipnN. apply Forall_app; split; [apply (gk_sbrows _ Ky)|].
+             apply Forall_inv in Hr0. destruct Hr0 as [Hl5 Hc5]. pose proof (gk_cols _ Ky).
+             constructor; [|constructor]. split; [exact Hc5|lia].
         * split; cbn; auto. intros Hz. rewrite Fcap, Hz in Erec. discriminate.
       + eexists; split; [reflexivity|]. split; [|split; [|split; [exact Ty|exact By]]].
         * split; [exact K1|cbn; auto].
@@ -597,7 +604,7 @@ Qed.
 Lemma grid_set_scrollback_post x k : grid_ok x -> post x (Ok (grid_set_scrollback x k)).
 Proof.
   intros (K & Hr & Hc). apply post_ok.
-  - split; [|cbn; auto]. apply okc_with_sb; auto; [lia|apply (gk_sbcap _ K)].
+  - split; [|cbn; auto]. apply okc_with_sb; auto; [lia|apply (gk_sbcap _ K)|apply (gk_sbrows _ K)].
   - split; cbn; auto.
 Qed.
 
@@ -614,7 +621,8 @@ Record grid_shape (x : grid) : Prop := mkShape {
   sh_bot : bot x < grows x;
   sh_region : top x < bot x \/ (top x = 0 /\ bot x = grows x - 1);
   sh_sboff : sb_off x <= len (sb x);
-  sh_sbcap : len (sb x) <= sb_cap x }.
+  sh_sbcap : len (sb x) <= sb_cap x;
+  sh_sbrows : Forall sbrow_ok (sb x) }.
 
 (* allocated or not: what every grid of a screen satisfies *)
 Definition grid_ok0 (x : grid) : Prop := grid_shape x /\ (live x = [] \/ grid_ok x).
